@@ -9,6 +9,7 @@ CONSTANTS
   RawCap = 1
   WarmCap = 2
   Slack = {1}
+  FetchListens = TRUE
   DecListens = TRUE
 INVARIANT Converges
 INVARIANT HostileHarmless
